@@ -9,7 +9,7 @@ import ast
 
 from ..engine import CHS, DECOS, DMMS, SCHED, SEQ, Engine, event_desc
 from ..flow import Event, FunctionFlow, Node
-from ..guards import GuardAnalysis, GuardSpec, always_raises, cond_calls, reject_if_call
+from ..guards import GuardAnalysis, GuardSpec, always_raises, cond_calls, reads_of, reject_if_call, writes_before_guard
 from ..model import AnalysisError, dotted, norm
 from ..report import Report
 from ..resolve import Callable_
@@ -36,11 +36,15 @@ TIMELINE_OWNERS = (
 )
 
 
-def _timeline_target(E: Engine):
+def _timeline_target(E: Engine, with_call_log: bool = False):
     def target(fl: FunctionFlow, node: Node, e: Event) -> bool:
         if e.kind != "write":
             return False
-        if not any(o in TIMELINE_OWNERS for o, _f in e.places):
+        hit = any(o in TIMELINE_OWNERS for o, _f in e.places)
+        if with_call_log and any(o == SEQ and f in ("_calls", "_to_build_calls") for o, f in e.places):
+            # recording the call changes the timeline of every sequence built later
+            hit = True
+        if not hit:
             return False
         return any(r != "fresh" for r in e.roots)
 
@@ -61,8 +65,11 @@ def run(E: Engine, rep: Report, tier: str) -> dict:
 
     # ----------------------------------------------------------- MEASURED
     spec_meas = GuardSpec("measured", reject_if_call(E, q_measured, True), _never)
-    GA = GuardAnalysis(E, spec_meas, _timeline_target(E))
+    GA = GuardAnalysis(E, spec_meas, _timeline_target(E, with_call_log=True))
+    reads_measured = reads_of(E, E.R.effective(E.method(SEQ, "is_measured")))
     timeline_methods = []
+    stable_clash: dict = {}
+    n_guard_sites = 0
     for f in E.public_entries():
         if f.name.startswith("__"):
             continue
@@ -83,8 +90,23 @@ def run(E: Engine, rep: Report, tier: str) -> dict:
                 v["where"], sites=[x["function"] + ":" + x["event"] for x in viol][:10],
             )
         else:
-            rep.ok("DOM-GUARD", key, f"all timeline writes ({sorted({x.owner.split('.')[-1] + '.' + x.field for x in tw})}) are dominated by the measured rejection", E.where(f))
+            rep.ok("DOM-GUARD", key, f"all timeline writes ({sorted({x.owner.split('.')[-1] + '.' + x.field for x in tw})}) and the call record are dominated by the measured rejection", E.where(f))
+        # GUARD-STABLE: the guard must not read state that this very call has already written
+        for g in writes_before_guard(E, c, spec_meas):
+            n_guard_sites += 1
+            for o, fl_ in sorted(g["written"] & reads_measured):
+                stable_clash.setdefault((o.split(".")[-1], fl_), []).append((f.name, g))
     rep.notes["timeline_methods"] = sorted(timeline_methods)
+    for (o, fl_), hits in sorted(stable_clash.items()):
+        meths = sorted({m for m, _g in hits})
+        g = hits[0][1]
+        rep.violation("GUARD-STABLE", f"measured-guard|reads-state-written-earlier-in-the-call|{o}.{fl_}",
+                      f"when the measured guard runs (e.g. in {g['function']} via {' -> '.join(g['via'])}) the same call may already have written {o}.{fl_}, which is_measured() reads: "
+                      f"the guard can answer for a different mode than the one the call started in. Affected entry points: {meths}", g["where"], methods=meths)
+    if not stable_clash:
+        rep.ok("GUARD-STABLE", "measured-guard|reads-only-unmodified-state", f"{n_guard_sites} guard evaluations: nothing is_measured() reads has been written earlier in the same call", E.where(E.method(SEQ, "is_measured")))
+    if n_guard_sites < 10:
+        rep.error(f"GUARD-STABLE: only {n_guard_sites} measured-guard evaluations found")
 
     # ---------------------------------------------------------------- EOM
     vc = E.method(SEQ, "_validate_channel")
@@ -204,7 +226,7 @@ def run(E: Engine, rep: Report, tier: str) -> dict:
 
     # ------------------------------------------------------------ DECLARE
     _declare_rules(E, rep)
-    rep.floor("DECLARE", 6)
+    rep.floor("DECLARE", 8)
 
     return {
         "functions_analysed": len(E.S._callables),
@@ -266,6 +288,24 @@ def _declare_rules(E: Engine, rep: Report) -> None:
             if parts in ({"key==-1", "notself.slots"}, {"-1==key", "notself.slots"}, {"key==-1", "len(self.slots)==0"}):
                 ok = True
     rep.check(ok, "DECLARE", "_ChannelSchedule.__getitem__|needs-target", "reading the last slot of an empty (local, untargeted) channel is rejected", "an empty channel no longer rejects access to its last slot (a local channel could take a pulse before a target)", E.where(gi))
+    # the EOM typestate predicate: an open block is one whose end is None (an end of 0 is a closed block)
+    iem = E.method(CHS, "in_eom_mode")
+    from ..absval import abstractor as _abs
+
+    ab = _abs(E.flow(iem))
+    ok = False
+    for r in ast.walk(iem.node):
+        if isinstance(r, ast.Return) and r.value is not None and "eom_blocks" in norm(r.value) and "get_eom_mode_intervals" not in norm(r.value):
+            for conj in ab.literals(r.value):
+                has_nonempty = any(l.atom is None and l.truth is not None and l.positive and "self.eom_blocks" in l.truth.roots for l in conj)
+                has_open = any(l.atom is not None and l.atom.rel == "Is" and "self.eom_blocks.tf" in l.atom.lhs.roots and "const:None" in l.atom.rhs.roots for l in conj)
+                ok = has_nonempty and has_open and len(conj) == 2
+    rep.check(ok, "DECLARE", "_ChannelSchedule.in_eom_mode|open-block-iff-tf-is-None", "in EOM mode iff there is a block and its end `is None`", "in_eom_mode() is no longer `bool(eom_blocks) and eom_blocks[-1].tf is None`: a block closed at t=0 (or another falsy end) would still count as open", E.where(iem))
+    # occupied channel ids derive from declared_channels (which includes DMM/SLM configurations stored for build)
+    v = _abs(E.flow(av)).av(ast.Name(id="occupied_ch_ids", ctx=ast.Load()))
+    from .common import strip_prefixes as _sp
+
+    rep.check(any(r.startswith("self.declared_channels") for r in _sp(v.roots)), "DECLARE", "available_channels|occupied-from-declared_channels", "occupied ids range over declared_channels (schedule + stored DMM/SLM configurations)", f"occupied channel ids no longer derive from declared_channels ({v.show()[:160]}): DMMs configured in a parametrized sequence would stay available", E.where(av))
     # XY / ising exclusivity in the setter and declare_channel
     st = E.method(SEQ, "_in_ising", kind="setter")
     ok = any(norm(t) == "self._in_xy" for t in _raising_tests(E, st))
